@@ -211,6 +211,8 @@ func cmdC17(seed uint64, tier, outdir string) {
 	cw = mustCreate(outdir, "ranges.cases")
 	iw = mustCreate(outdir, "ranges.impl")
 	vw = mustCreate(outdir, "ranges.verdicts")
+	jc := mustCreate(outdir, "join.cases")
+	ji := mustCreate(outdir, "join.impl")
 	for i := 0; i < nPairs; i++ {
 		var a, b string
 		switch r.intn(5) {
@@ -251,6 +253,29 @@ func cmdC17(seed uint64, tier, outdir string) {
 			fmt.Fprintf(&sb, " %d,%d,%d,%d", m.SrcStart, m.SrcEnd, m.TargetStart, m.TargetEnd)
 		}
 		cw.printf("%s\n", sb.String())
+		// where the sorted ranges come from: hashed windows of the source, node windows of the target
+		{
+			var jb, ib strings.Builder
+			fmt.Fprintf(&jb, "%d %d %d %d |", len(src.Tokens), g, len(tgt.Tokens), g)
+			ib.WriteString("H")
+			for _, w := range searchset.VerifHashWindows(src) {
+				fmt.Fprintf(&jb, " %d", w[2])
+				fmt.Fprintf(&ib, " %d-%d", w[0], w[1])
+			}
+			jb.WriteString(" |")
+			ib.WriteString(" | N")
+			for _, w := range searchset.VerifNodeWindows(tgt) {
+				fmt.Fprintf(&jb, " %d", w[2])
+				fmt.Fprintf(&ib, " %d-%d", w[0], w[1])
+			}
+			jb.WriteString(" |")
+			for _, m := range sorted {
+				fmt.Fprintf(&jb, " %d,%d,%d,%d", m.SrcStart, m.SrcEnd, m.TargetStart, m.TargetEnd)
+			}
+			ib.WriteString(" | pairings=1 sorted=1")
+			jc.printf("%s\n", jb.String())
+			ji.printf("%s\n", ib.String())
+		}
 		var cs []searchset.MatchRanges
 		pan := false
 		func() {
@@ -280,6 +305,8 @@ func cmdC17(seed uint64, tier, outdir string) {
 	cw.close()
 	iw.close()
 	vw.close()
+	jc.close()
+	ji.close()
 	// storm of tiny low-vocabulary pairs (several match chains alive at once, equal windows at many source
 	// positions): oracle only
 	nStorm := 400000
